@@ -1897,6 +1897,7 @@ func (mgr *Manager) removeConverter(path string) error {
 	if err := converter.Reset(); err != nil {
 		return err
 	}
+	mgr.converterOutputDropped()
 
 	delete(mgr.converters, name)
 	delete(mgr.streamsToConvert, name)
@@ -1920,6 +1921,7 @@ func (mgr *Manager) restartConverterProcess(path string) error {
 	if err := converter.Reset(); err != nil {
 		return err
 	}
+	mgr.converterOutputDropped()
 
 	// run the converter on all streams that match the tags it is attached to again
 	for _, tag := range mgr.tags {
@@ -1987,8 +1989,24 @@ func (mgr *Manager) detachConverterFromTag(tag *tag, tagName string, converter *
 		if err := converter.Reset(); err != nil {
 			return err
 		}
+		mgr.converterOutputDropped()
 	}
 	return nil
+}
+
+// converterOutputDropped has to be called when the cached output of a converter was deleted.
+// Tags using a data: filter could have matched on that output, they are evaluated again.
+func (mgr *Manager) converterOutputDropped() {
+	for _, tag := range mgr.tags {
+		// TODO: Only tag again if the tag matches converted data
+		if tag.features.MainFeatures&query.FeatureFilterData == 0 && tag.features.SubQueryFeatures&query.FeatureFilterData == 0 {
+			continue
+		}
+		tag.Uncertain = tag.Uncertain.OrCopy(mgr.allStreams)
+	}
+	mgr.updatedStreamsDuringTaggingJob.Or(mgr.allStreams)
+	mgr.inheritTagUncertainty()
+	mgr.startTaggingJobIfNeeded()
 }
 
 func (mgr *Manager) ResetConverter(converterName string) error {
